@@ -709,6 +709,9 @@ class StrategyBase(Node):
 
                 # avoid useless update call
                 if c._issec and not c._needupdate:
+                    # a security that went flat (and idle) earlier today still paid its spread today
+                    if self._bidoffer_set and c.now == date:
+                        bidoffer_paid += c._bidoffer_paid
                     continue
 
                 c.update(date, data, inow)
